@@ -6,7 +6,10 @@ scale up to 2^16): the second result must equal the first; both runs are compare
 extracted legalizer model fed with the implementation's cell order.
 Known finding F10 (orderingWidth outside [0,1] is accepted and inverts cells of a row) is matched
 narrowly: custom ordering width outside [0,1] AND the implementation's own order of the second run
-inverts two movable cells that the first result placed in the same row segment."""
+inverts two movable cells that the first result placed in the same row segment.
+Sequence stream (sequence_stream below; harness/circseq.cpp SP cases): ONE Circuit is legalized, edited through the public
+setters so that its placement stays legal, and legalized again; whenever the public state before a legalize step is a legal
+row-high placement (proved checker legalb) the call must succeed and move no cell -- on the object with its history."""
 import json
 from tools import common
 from checks import legal_common as lc
@@ -23,7 +26,7 @@ LEVEL = "proof"
 # |orderingHeight| <= 4), coords_small (|x|, |y|, placed width, placed height of the movable cells < 2^20: the property's quantifier).
 # Conclusion: the call returns normally and x, y of EVERY cell are what they were (orientations may become the prescribed ones).
 SMALL = 1 << 20
-NW_ROWS, SE_ROWS = (0, 4, 2, 6), (1, 5, 3, 7)      # cellOrientationInRow: NW admits N FN W FW, SE admits S FS E FW
+NW_ROWS, SE_ROWS = (0, 4, 2, 6), (1, 5, 3, 7)      # cellOrientationInRow: NW admits N FN W FW, SE admits S FS E FE
 
 
 def fixpoint_domain(state, args):
@@ -54,8 +57,8 @@ def fixpoint_domain(state, args):
     return None
 
 
-def sequence_stream(ctx, seed, count, extra_cases=()):
-    precs, anomalies, stats = cs.run_placement_sequences(seed, count, extra_cases, gen="r")
+def sequence_stream(ctx, seed, count, extra_cases=(), gen="r"):
+    precs, anomalies, stats = cs.run_placement_sequences(seed, count, extra_cases, gen=gen)
     res = {"stats": stats, "anomalies": anomalies, "moved": [], "legalize_steps": 0, "in_domain": 0, "legal_before": 0,
            "legal_before_with_history": 0, "legal_before_after_an_edit_following_a_stage": 0, "distinct": set(), "fresh_moved": 0,
            "cases": sorted(set(r.case for r in precs))[:2], "outside": {}}
@@ -173,6 +176,17 @@ def run(ctx):
             for k, v in more.items():
                 if isinstance(v, (int, list)) and not isinstance(v, bool):
                     fres[k] = fres[k] + v
+    # sequence stream: legalize on ONE object between public edits, whenever its public state is a legal row-high placement
+    seqs = [sequence_stream(ctx, s + 60, 1500 if ctx.quick else 60000, common.corpus("C11", ("SP ",)), gen="r"),
+            sequence_stream(ctx, s + 61, 1000 if ctx.quick else 40000, gen="p")]
+    seq_moved = [m for q in seqs for m in q["moved"]]
+    seq_anom = [a for q in seqs for a in q["anomalies"]]
+    for r, why in seq_moved[:3]:
+        ctx.violation("Circuit::legalize violates C11 inside a sequence of public edits and placement calls on one Circuit: " + why, seq_detail(r, why))
+    if not seq_moved:
+        for case, text in seq_anom[:3]:
+            ctx.violation("a sequence of public edits and legalize calls did not run through: " + text[:200],
+                          {"case": case, "format": "see harness/circseq.cpp header (SP)", "implementation_output": text[:400], "why": text[:200]}, found_input=False)
     for l, i, why in ofail[:3]:
         ctx.violation("Circuit::legalize violates C11: " + why,
                       {"case": l, "format": "LG nrows (minX maxX minY maxY orient)* ncells (x y w h orient pol fixed obs)* custom ow10 oy10 oh10 effort twice",
@@ -192,18 +206,32 @@ def run(ctx):
         ctx.known_finding("F23")
     cov = dict(proof)
     cov.update({"trusted_base": common.TRUSTED_BASE + ["computeCellOrder is modelled twice: over exact rationals (coq/CellOrder.v) and in binary32 with Flocq (coq/CellOrderFloat.v: one correctly rounded IEEE-754 operation per C++ operator, double -> float and int -> float conversions; theorems c11_float_* / c11_legalize_float_order_* on |orderingHeight| <= 4, coordinates <= 2^20). Trusted for the binary32 model: the compiler emits one binary32 SSE operation per float operator (x86-64, no -ffast-math, no -mfma; compared bit-exactly through the resulting order on non-dyadic cases by float_tie), Flocq's formalisation of IEEE-754, the real-number axioms of Coq's standard library"],
-                "evaluations": len(run.lines) + ores["runs"], "distinct_nontrivial": len(nontriv) + len(ores["nontrivial_lines"]),
+                "evaluations": len(run.lines) + ores["runs"] + sum(q["legalize_steps"] for q in seqs),
+                "distinct_nontrivial": len(nontriv) + len(ores["nontrivial_lines"]) + sum(len(q["distinct"]) for q in seqs),
                 "closed_model_order_tie": c11_order.summary(ores),
+                "sequence_stream": {"legal_rowhigh_generator (gen r)": seq_summary(seqs[0]), "general_generator (gen p, as C01)": seq_summary(seqs[1])},
                 "binary32_model_tie": c11_order.float_summary(fres),
                 "rule": "C01 generator restricted to row-high movable cells (polarities, obstructions, split rows, y gaps), utilisation 30-110% and a sparse "
                         "stream, scale up to 2^16, efforts 1-9, custom ordering parameters over the accepted box in half of the cases; each case legalized twice. "
                         "non-trivial = the first legalization succeeded (so the second one runs on a legal placement); distinct = distinct case lines. "
                         "Closed-model stream (OR lines, harness/order.cpp): general / row-high / tiled / sparse circuits, scale 1..2^9 (half), 2^10..2^16 (some), "
                         "copied cells for equal keys, ordering parameters as dyadic fractions (70 %) or tenths over the accepted box; non-trivial = binary32 key "
-                        "evaluation exact and at least two movable cells",
+                        "evaluation exact and at least two movable cells. "
+                        "Sequence stream (SP lines, harness/circseq.cpp): ONE Circuit is legalized, edited through the public setters and legalized again "
+                        "(4-10 steps); generator r: a legal placement of a row-high design (1-4 rows, split pieces, 1-8 movable cells, polarities, turned "
+                        "cells without polarity, 0-3 fixed cells among them obstructions inside the rows, scale 1 or 2^1..2^13; 25 % start perturbed) whose "
+                        "edits are filtered by the generator's shadow state so that the placement stays legal: a fixed obstruction moved away / onto free "
+                        "space and a cell put on the vacated area (one setSolution, two setSolution calls, or setCellX + setCellY + setSolution), a cell "
+                        "moved into a free stretch, cells swapped, fixed <-> movable, obstruction flags, rows extended / shrunk / added / dropped, widths "
+                        "shrunk, orientations, nets, copy assignment, placeDetailed, computeRows / hpwl / report queries in between, 2 % wild edits; "
+                        "generator p: the general sequences of C01. Every legalize step is judged on the PUBLIC state dumped right before the call: when "
+                        "it satisfies the hypotheses of c11_legalize_float_order_fixpoint (std_design, every movable cell one row high, coordinates < 2^20, "
+                        "NW / SE cells on admitting rows, orderingWidth in [0,1], |orderingY| <= 2, |orderingHeight| <= 4, legalb = true by the extracted "
+                        "checker) the call on the object with its history (and on a fresh circuit) must succeed with x, y of every cell unchanged; "
+                        "non-trivial = such a legal before-state; distinct = distinct (state, legalize arguments)",
                 "distribution": lc.distribution(run), "known_F10_matches": known,
-                "samples": [run.lines[0], run.lines[len(run.lines) // 2]] + ores["lines"][-1:],
-                "model_vs_impl_differences": len(mism), "impl_outputs_violating_statement": len(ofail)})
+                "samples": [run.lines[0], run.lines[len(run.lines) // 2]] + ores["lines"][-1:] + seqs[0]["cases"][:1],
+                "model_vs_impl_differences": len(mism), "impl_outputs_violating_statement": len(ofail) + len(seq_moved)})
     return ctx.finish(LEVEL, cov, ["whole-circuit idempotence is validated per case, its ingredients are proved (see Properties_C11.v)",
                                    "model tied to the code by exact comparison on the cases of this run"])
 
@@ -213,6 +241,17 @@ def replay(ctx, path):
     case = r.get("case") or r["first_difference"]["case"]
     if case.startswith("OR "):
         return c11_order.replay_case(case)
+    if case.startswith("SP "):
+        res = sequence_stream(ctx, 0, 0, [case])
+        print("case :", case)
+        for t in cs.steps_text(case):
+            print("  step", t)
+        for c, text in res["anomalies"]:
+            print("NOT RUN THROUGH:", text[:300])
+        for rec, why in res["moved"]:
+            print("after step %d: legal state LG %s\n  object with history: %s\n  fresh circuit      : %s\n  %s" % (rec.step, " ".join(rec.state), rec.mine, rec.fresh, why))
+        print("legalize steps: %d, on a legal row-high state: %d, moved / failed: %d" % (res["legalize_steps"], res["legal_before"], len(res["moved"])))
+        return 1 if res["moved"] or res["anomalies"] else 0
     class R(lc.LegalRun):
         def __init__(self, ctx):
             self.ctx = ctx
